@@ -16,7 +16,13 @@ def run_bin(binary, args, env=None, budget=900, status=False):
     st_path = os.path.join(tmp, "status")
     if status:
         a += ["--status", st_path]
-    outcome, rc, text = proc.run(a, env=e, budget_s=budget)
+    # rapidcheck can spend very long shrinking a failure whose failing region is huge (seen with 64-bit time arithmetic): a process that does
+    # not finish within `shrink_budget` is stopped and the same chunk is run again without shrinking, so that the failure is reported, unshrunk
+    shrink_budget = min(budget, 240)
+    outcome, rc, text = proc.run(a, env=e, budget_s=shrink_budget if "RC_PARAMS" in e else budget)
+    if outcome == "inconclusive" and "RC_PARAMS" in e and "noshrink" not in e["RC_PARAMS"]:
+        e["RC_PARAMS"] += " noshrink=1"
+        outcome, rc, text = proc.run(a, env=e, budget_s=budget)
     res = None
     if os.path.exists(out):
         try:
